@@ -304,9 +304,11 @@ func runC17(c *kit.Ctx) {
 		}
 	}
 	r3sites(dec.f, "packet bytes", dm.lf.Sites)
-	if dm.hlf != nil {
-		c.Analysed(dec.vf)
-		r3sites(dec.vf, "packet bytes (checksum helper, lengths that reach its call)", dm.hlf.Sites)
+	for _, h := range dm.helpers {
+		if h.lf != nil {
+			c.Analysed(h.f)
+			r3sites(h.f, "packet bytes (helper, lengths that reach its call)", h.lf.Sites)
+		}
 	}
 
 	// R4: codec pairs of the message types carried in the packet payload
@@ -344,13 +346,16 @@ func runC17(c *kit.Ctx) {
 // decoder model
 
 type c17DecModel struct {
-	lf        *kit.LenFlow
-	hlf       *kit.LenFlow // the validator helper analysed with the packet lengths that reach its call
-	subjVar   types.Object
-	subjSlice *ast.SliceExpr
-	payVar    types.Object
-	paySlice  *ast.SliceExpr
-	problems  []string
+	lf *kit.LenFlow
+	// module helpers that receive the whole packet, analysed with the packet
+	// lengths that reach their calls
+	helpers    []*c17HelperFlow
+	subjHelper *kit.Func // the subject is extracted by this helper (nil: inline)
+	subjVar    types.Object
+	subjSlice  *ast.SliceExpr
+	payVar     types.Object
+	paySlice   *ast.SliceExpr
+	problems   []string
 }
 
 // c17DerivedSlice finds the single slice-of-d expression inside e.
@@ -393,7 +398,8 @@ func c17AnalyseDecoder(c *kit.Ctx, dec *c17Decoder) *c17DecModel {
 		return e == ast.Expr(dec.computed) || (computedVar != nil && kit.ObjOf(info, e) == computedVar)
 	}
 	// string variables derived from the content of d
-	fromD := func(e ast.Expr) bool {
+	var fromD func(e ast.Expr) bool
+	fromD = func(e ast.Expr) bool {
 		e = ast.Unparen(e)
 		if o := kit.ObjOf(info, e); o != nil {
 			if def := c12SingleDef(f, o); def != nil {
@@ -417,54 +423,226 @@ func c17AnalyseDecoder(c *kit.Ctx, dec *c17Decoder) *c17DecModel {
 		}
 		return []kit.S{s.Set(k, yes)}, []kit.S{s.Set(k, no)}
 	}
+	// helpers called with the whole packet: the lengths that reach each call
+	noteCalls := func(n ast.Node, s kit.S, lf *kit.LenFlow) {
+		ast.Inspect(n, func(x ast.Node) bool {
+			call, ok := x.(*ast.CallExpr)
+			if !ok {
+				return true
+			}
+			if _, isLit := x.(*ast.FuncLit); isLit {
+				return false
+			}
+			h := f.CalleeFunc(call)
+			if h == nil || h.Body == nil || h.Decl == nil || h == f {
+				return true
+			}
+			for i, a := range call.Args {
+				id, isId := ast.Unparen(a).(*ast.Ident)
+				if !isId || kit.ObjOf(info, id) != dec.d {
+					continue
+				}
+				hp := h.Params()
+				if i >= len(hp) || !c17IsByteSlice(hp[i].Type()) {
+					continue
+				}
+				set, _, _, _, ok := lf.ResultLen(id, s)
+				if !ok {
+					continue
+				}
+				var hf *c17HelperFlow
+				for _, x := range dm.helpers {
+					if x.f == h && x.prm == hp[i] {
+						hf = x
+					}
+				}
+				if hf == nil {
+					hf = &c17HelperFlow{f: h, prm: hp[i]}
+					dm.helpers = append(dm.helpers, hf)
+				}
+				hf.dom = kit.LenDomUnion(hf.dom, set)
+			}
+			return true
+		})
+	}
+	// subject extracted by a helper: subject := h(d) with h returning string(…d[a:b]…)
+	subjectHelper := func(e ast.Expr) *kit.Func {
+		call, ok := ast.Unparen(e).(*ast.CallExpr)
+		if !ok || len(call.Args) != 1 {
+			return nil
+		}
+		if id, isId := ast.Unparen(call.Args[0]).(*ast.Ident); !isId || kit.ObjOf(info, id) != dec.d {
+			return nil
+		}
+		h := f.CalleeFunc(call)
+		if h == nil || h.Body == nil || h.Decl == nil || len(h.Params()) != 1 {
+			return nil
+		}
+		if ret := c17SingleReturn(h); ret != nil && len(ret.Results) == 1 && c17DerivedSlice(h.Info(), ret.Results[0], h.Params()[0]) != nil {
+			return h
+		}
+		return nil
+	}
+	fromD = func(e ast.Expr) bool {
+		e = ast.Unparen(e)
+		if o := kit.ObjOf(info, e); o != nil {
+			if def := c12SingleDef(f, o); def != nil {
+				if c17DerivedSlice(info, def, dec.d) != nil {
+					return true
+				}
+				if h := subjectHelper(def); h != nil {
+					dm.subjHelper = h
+					return true
+				}
+			}
+			return false
+		}
+		return c17DerivedSlice(info, e, dec.d) != nil || subjectHelper(e) != nil
+	}
+	// predicate on the subject: p(subject) with p returning `s == "log"` / `s != "log"`
+	logPredicate := func(e ast.Expr) (eq, ok bool) {
+		call, isCall := ast.Unparen(e).(*ast.CallExpr)
+		if !isCall || len(call.Args) != 1 || !fromD(call.Args[0]) {
+			return false, false
+		}
+		h := f.CalleeFunc(call)
+		if h == nil || h.Body == nil || h.Decl == nil || len(h.Params()) != 1 {
+			return false, false
+		}
+		ret := c17SingleReturn(h)
+		if ret == nil || len(ret.Results) != 1 {
+			return false, false
+		}
+		a, b, op, isCmp := kit.CmpAtom(ret.Results[0])
+		if !isCmp || (op != token.EQL && op != token.NEQ) {
+			return false, false
+		}
+		hi := h.Info()
+		for _, pair := range [][2]ast.Expr{{a, b}, {b, a}} {
+			if v, isC := kit.ConstString(hi, pair[1]); isC && v == "log" && kit.ObjOf(hi, pair[0]) == h.Params()[0] {
+				return op == token.EQL, true
+			}
+		}
+		return false, false
+	}
+	// a leaf the table does not interpret but that looks at the packet content:
+	// verdicts on paths through it must not become violations
+	relevant := func(e ast.Expr) bool {
+		hit := false
+		ast.Inspect(e, func(x ast.Node) bool {
+			switch y := x.(type) {
+			case *ast.CallExpr:
+				if y == dec.stored || y == dec.computed {
+					hit = true
+				}
+				if h := f.CalleeFunc(y); h != nil {
+					for _, a := range y.Args {
+						if id, isId := ast.Unparen(a).(*ast.Ident); isId && (kit.ObjOf(info, id) == dec.d || fromD(id)) {
+							hit = true
+						}
+					}
+				}
+			case *ast.Ident:
+				o := kit.ObjOf(info, y)
+				if o != nil && (o == storedVar || o == computedVar) {
+					hit = true
+				}
+				if o != nil && o != dec.d && fromD(y) {
+					if b, isB := o.Type().Underlying().(*types.Basic); isB && b.Kind() == types.String {
+						hit = true
+					}
+				}
+			}
+			return !hit
+		})
+		return hit
+	}
 	lf := &kit.LenFlow{F: f, X: dec.d}
-	callDom := ""
+	lf.Visit = func(n ast.Node, s kit.S) { noteCalls(n, s, lf) }
 	lf.Leaf = func(e ast.Expr, s kit.S) (t, fl []kit.S, handled bool) {
+		noteCalls(e, s, lf)
 		if dec.viaHelper() {
 			if call, ok := ast.Unparen(e).(*ast.CallExpr); ok && f.CalleeFunc(call) == dec.vf && len(call.Args) == 1 {
 				if id, ok := ast.Unparen(call.Args[0]).(*ast.Ident); ok && kit.ObjOf(info, id) == dec.d {
-					if set, _, _, _, ok := lf.ResultLen(id, s); ok {
-						callDom = kit.LenDomUnion(callDom, set)
-					}
 					t, fl = setAtom(s, "crc", dec.vEq)
 					return t, fl, true
 				}
 			}
 		}
-		a, b, op, ok := kit.CmpAtom(e)
-		if !ok || (op != token.EQL && op != token.NEQ) {
-			return nil, nil, false
-		}
-		if (isStored(a) && isComputed(b)) || (isStored(b) && isComputed(a)) {
-			t, fl = setAtom(s, "crc", op == token.EQL)
+		if eq, ok := logPredicate(e); ok {
+			t, fl = setAtom(s, "log", eq)
 			return t, fl, true
 		}
-		for _, pair := range [][2]ast.Expr{{a, b}, {b, a}} {
-			if v, ok := kit.ConstString(info, pair[1]); ok && v == "log" && fromD(pair[0]) {
-				t, fl = setAtom(s, "log", op == token.EQL)
+		a, b, op, ok := kit.CmpAtom(e)
+		if ok && (op == token.EQL || op == token.NEQ) {
+			if (isStored(a) && isComputed(b)) || (isStored(b) && isComputed(a)) {
+				t, fl = setAtom(s, "crc", op == token.EQL)
 				return t, fl, true
 			}
+			for _, pair := range [][2]ast.Expr{{a, b}, {b, a}} {
+				if v, ok := kit.ConstString(info, pair[1]); ok && v == "log" && fromD(pair[0]) {
+					t, fl = setAtom(s, "log", op == token.EQL)
+					return t, fl, true
+				}
+			}
+		}
+		if relevant(e) {
+			q := s.Set("q", "1")
+			return []kit.S{q}, []kit.S{q}, true
 		}
 		return nil, nil, false
 	}
 	lf.Run()
 	dm.lf = lf
-	if dec.viaHelper() {
-		h := &kit.LenFlow{F: dec.vf, X: dec.vd, DefDom: callDom}
-		if callDom == "" {
-			h.Init = kit.NewS().Set("u", "1") // the call was never reached with a known length
-		}
-		h.Run()
-		dm.hlf = h
+	for _, h := range dm.helpers {
+		hl := &kit.LenFlow{F: h.f, X: h.prm, DefDom: h.dom}
+		hl.Run()
+		h.lf = hl
 	}
 	return dm
 }
 
-// sites of both flows
+// c17SingleReturn: the only return statement of f, or nil.
+func c17SingleReturn(f *kit.Func) *ast.ReturnStmt {
+	var rets []*ast.ReturnStmt
+	ast.Inspect(f.Body, func(x ast.Node) bool {
+		switch y := x.(type) {
+		case *ast.FuncLit:
+			return false
+		case *ast.ReturnStmt:
+			rets = append(rets, y)
+		}
+		return true
+	})
+	if len(rets) != 1 {
+		return nil
+	}
+	return rets[0]
+}
+
+type c17HelperFlow struct {
+	f   *kit.Func
+	prm types.Object
+	dom string
+	lf  *kit.LenFlow
+}
+
+func (dm *c17DecModel) flowOf(f *kit.Func) *kit.LenFlow {
+	for _, h := range dm.helpers {
+		if h.f == f {
+			return h.lf
+		}
+	}
+	return nil
+}
+
+// sites of all flows
 func (dm *c17DecModel) allSites() []*kit.LenSite {
 	out := append([]*kit.LenSite(nil), dm.lf.Sites...)
-	if dm.hlf != nil {
-		out = append(out, dm.hlf.Sites...)
+	for _, h := range dm.helpers {
+		if h.lf != nil {
+			out = append(out, h.lf.Sites...)
+		}
 	}
 	return out
 }
@@ -491,8 +669,9 @@ type c17EncModel struct {
 	// where the buffer comes from: "local" | "pool" | "pkgvar" | "param" | "unknown"
 	origin     string
 	originPool types.Object
-	putBack    bool // handed back to a pool inside the encoder
-	resetFirst bool // emptied before the first write
+	guardFn    *kit.Func // function that copies the subject into its field (the encoder itself when nil)
+	putBack    bool      // handed back to a pool inside the encoder
+	resetFirst bool      // emptied before the first write
 	resetAny   bool
 }
 
@@ -508,9 +687,23 @@ func c17AnalyseEncoder(c *kit.Ctx, enc *c17Encoder) *c17EncModel {
 		return kit.ObjOf(info, e) == enc.buf
 	}
 	topLevel := func(n ast.Node) bool {
+		within := func(outer ast.Node) bool {
+			return outer != nil && outer.Pos() <= n.Pos() && n.End() <= outer.End()
+		}
 		for x := c.P.Parent(f.File, n); x != nil; x = c.P.Parent(f.File, x) {
-			switch x.(type) {
-			case *ast.IfStmt, *ast.ForStmt, *ast.RangeStmt, *ast.SwitchStmt, *ast.TypeSwitchStmt, *ast.SelectStmt, *ast.FuncLit, *ast.DeferStmt, *ast.GoStmt:
+			switch y := x.(type) {
+			case *ast.IfStmt:
+				// the init statement and the condition of an if run unconditionally
+				if (y.Init != nil && within(y.Init)) || within(y.Cond) {
+					continue
+				}
+				return false
+			case *ast.SwitchStmt:
+				if (y.Init != nil && within(y.Init)) || (y.Tag != nil && within(y.Tag)) {
+					continue
+				}
+				return false
+			case *ast.ForStmt, *ast.RangeStmt, *ast.TypeSwitchStmt, *ast.SelectStmt, *ast.FuncLit, *ast.DeferStmt, *ast.GoStmt:
 				return false
 			case *ast.FuncDecl:
 				return true
@@ -580,17 +773,29 @@ func c17AnalyseEncoder(c *kit.Ctx, enc *c17Encoder) *c17EncModel {
 						}
 					}
 				}
-				// multi-value definition: pbBytes, err := proto.Marshal(m)
+				// multi-value definition: pbBytes, err := proto.Marshal(m) / a module helper
 				if seg.role == "" {
 					ast.Inspect(f.Body, func(x ast.Node) bool {
 						as, ok := x.(*ast.AssignStmt)
 						if !ok || len(as.Rhs) != 1 || len(as.Lhs) < 1 || kit.ObjOf(info, as.Lhs[0]) != o {
 							return true
 						}
-						if mc, ok := ast.Unparen(as.Rhs[0]).(*ast.CallExpr); ok &&
-							kit.CallIs(info, mc, "google.golang.org/protobuf/proto.Marshal", "github.com/golang/protobuf/proto.Marshal") && len(mc.Args) == 1 {
+						mc, ok := ast.Unparen(as.Rhs[0]).(*ast.CallExpr)
+						if !ok {
+							return true
+						}
+						if mt := c17MarshalArg(f, mc, 0); mt != nil {
 							seg.role = "payload"
-							em.marshalArg = info.TypeOf(mc.Args[0])
+							em.marshalArg = mt
+							return true
+						}
+						// sub, err := subjectField(subject): a helper that builds the fixed field
+						if n, g, gp, ok := c17SubjectFieldHelper(f, mc, strParams); ok {
+							seg.role, seg.size = "subject", n
+							em.subjField, em.subjParam, em.guardFn = n, gp, g
+							if !topLevel(mc) {
+								em.problems = append(em.problems, "the subject field is built conditionally")
+							}
 						}
 						return true
 					})
@@ -737,38 +942,7 @@ func c17AnalyseEncoder(c *kit.Ctx, enc *c17Encoder) *c17EncModel {
 		}
 		return true
 	})
-	// subject length guard: at the copy, len(subject) <= field size on every path
-	if em.subjParam != nil {
-		lf := &kit.LenFlow{F: f, X: em.subjParam}
-		em.guardOK, em.guardMsg = true, ""
-		seen := false
-		lf.Visit = func(n ast.Node, s kit.S) {
-			for _, cp := range kit.CallsIn(n) {
-				if b, ok := kit.Callee(info, cp).(*types.Builtin); !ok || b.Name() != "copy" || len(cp.Args) != 2 || !mentions(cp.Args[1], em.subjParam) {
-					continue
-				}
-				seen = true
-				_, max, ok := lf.LenRange(s)
-				switch {
-				case !ok:
-					em.guardOK, em.guardMsg = false, "length of the subject unknown at the copy"
-				case max < 0 || max > em.subjField:
-					w := em.subjField + 1
-					em.guardOK = false
-					em.guardMsg = fmt.Sprintf("a subject of %d bytes reaches `%s` and is silently truncated to %d bytes (no dominating length refusal)", w, f.Str(cp), em.subjField)
-					if s.Get("u") != "" {
-						em.guardMsg = "undecided: " + em.guardMsg
-					}
-				}
-			}
-		}
-		lf.Run()
-		if lf.Problem != "" {
-			em.guardOK, em.guardMsg = false, "undecided: "+lf.Problem
-		} else if !seen {
-			em.guardOK, em.guardMsg = false, "undecided: the subject copy was not reached by the path engine"
-		}
-	}
+	c17SubjectGuard(f, em)
 	return em
 }
 
@@ -952,6 +1126,15 @@ func c17Layout(c *kit.Ctx, r *kit.Rule, enc *c17Encoder, em *c17EncModel, dec *c
 		} else {
 			def := resolve(subE)
 			se := c17DerivedSlice(info, def, dec.d)
+			if se == nil && dm.subjHelper != nil {
+				// subject := h(d): look inside the helper (its parameter is the whole packet)
+				if hc, isCall := def.(*ast.CallExpr); isCall && df.CalleeFunc(hc) == dm.subjHelper {
+					if hr := c17SingleReturn(dm.subjHelper); hr != nil {
+						def = ast.Unparen(hr.Results[0])
+						se = c17DerivedSlice(info, def, dm.subjHelper.Params()[0])
+					}
+				}
+			}
 			if se == nil {
 				vSub = append(vSub, verdict{"undecided", fmt.Sprintf("the subject result %s does not derive from one slice of the packet", df.Str(subE))})
 			} else {
@@ -984,7 +1167,47 @@ func c17Layout(c *kit.Ctx, r *kit.Rule, enc *c17Encoder, em *c17EncModel, dec *c
 			}
 		}
 		// payload (only the checksummed path is a layout obligation: log packets carry no checksum by design)
-		if pse, ok := resolve(payE).(*ast.SliceExpr); payE != nil && ok && kit.ObjOf(info, pse.X) == dec.d {
+		// the window of the packet the payload result holds at this return, per path
+		winLo, winHi := map[string]bool{}, map[string]bool{}
+		winAny, winFail := false, false
+		if payE != nil && dm.lf.Result != nil {
+			for _, ex := range dm.lf.Result.Exits {
+				if ex.Return != ret {
+					continue
+				}
+				a, b, ok := dm.lf.WindowStrings(payE, ex.State)
+				if !ok {
+					winFail = true
+					continue
+				}
+				winAny = true
+				if ex.State.Get("a:log") == "F" {
+					winLo[a], winHi[b] = true, true
+				}
+			}
+		}
+		keysOf := func(m map[string]bool) []string {
+			var v []string
+			for k := range m {
+				v = append(v, k)
+			}
+			sort.Strings(v)
+			return v
+		}
+		if winAny && !winFail {
+			lo, hi := keysOf(winLo), keysOf(winHi)
+			wantLo, wantHi := fmt.Sprint(payOff), lminus(crcSize)
+			switch {
+			case len(lo) == 0:
+				// this return is only reached for log packets
+			case one(lo) != wantLo || one(hi) != wantHi:
+				payChecked = true
+				vPay = append(vPay, verdict{"violation", fmt.Sprintf("the encoder places the payload in bytes [%s:%s) but on the checksummed path the decoder returns %s = bytes [%s:%s)", wantLo, wantHi, df.Str(payE), one(lo), one(hi))})
+			default:
+				payChecked = true
+				vPay = append(vPay, verdict{"ok", fmt.Sprintf("%s = [%s:%s) when the subject is not log", df.Str(payE), one(lo), one(hi))})
+			}
+		} else if pse, ok := resolve(payE).(*ast.SliceExpr); payE != nil && ok && kit.ObjOf(info, pse.X) == dec.d {
 			lo, hi := boundsOf(pse, func(s kit.S) bool { return s.Get("a:log") == "F" })
 			wantLo, wantHi := fmt.Sprint(payOff), lminus(crcSize)
 			switch {
@@ -1132,8 +1355,21 @@ func c17Acceptance(c *kit.Ctx, r *kit.Rule, dec *c17Decoder, dm *c17DecModel, em
 	if len(em.problems) > 0 || len(em.segs) != 4 {
 		minPkt = 0
 	}
+	// q: the path passed a condition on the packet content that the table does
+	// not interpret; sawLog/sawCrc: the atom was recognised somewhere
+	anyQ, sawLog, sawCrc := false, false, false
+	var qRej, qVal []string
 	for _, e := range lf.Result.Exits {
 		lg, cr := e.State.Get("a:log"), e.State.Get("a:crc")
+		if lg != "" {
+			sawLog = true
+		}
+		if cr != "" {
+			sawCrc = true
+		}
+		if e.State.Get("q") != "" {
+			anyQ = true
+		}
 		at := "exit"
 		if e.Return != nil {
 			at = fmt.Sprintf("`%s` at %s", f.Str(e.Return), f.At(e.Return))
@@ -1153,7 +1389,14 @@ func c17Acceptance(c *kit.Ctx, r *kit.Rule, dec *c17Decoder, dm *c17DecModel, em
 				if lg == "" {
 					why += " and the subject was never tested"
 				}
-				badRej = append(badRej, fmt.Sprintf("%s returns the payload with a nil error although %s on this path: a corrupted packet is delivered", at, why))
+				msg := fmt.Sprintf("%s returns the payload with a nil error although %s on this path: a corrupted packet is delivered", at, why)
+				// with both tests established on the path (not log, mismatch) the
+				// acceptance is a violation whatever else the path looked at
+				if e.State.Get("q") != "" && (lg == "" || cr == "") {
+					qRej = append(qRej, msg)
+				} else {
+					badRej = append(badRej, msg)
+				}
 			}
 		case "reject":
 			// a packet shorter than anything the encoder can produce may be
@@ -1163,10 +1406,18 @@ func c17Acceptance(c *kit.Ctx, r *kit.Rule, dec *c17Decoder, dm *c17DecModel, em
 					continue
 				}
 			}
+			msg := ""
 			if lg == "T" {
-				badVal = append(badVal, fmt.Sprintf("%s rejects a log packet", at))
+				msg = fmt.Sprintf("%s rejects a log packet", at)
 			} else if cr == "T" {
-				badVal = append(badVal, fmt.Sprintf("%s rejects a packet whose checksum matched", at))
+				msg = fmt.Sprintf("%s rejects a packet whose checksum matched", at)
+			}
+			if msg != "" {
+				if e.State.Get("q") != "" {
+					qVal = append(qVal, msg)
+				} else {
+					badVal = append(badVal, msg)
+				}
 			}
 		default:
 			unknown = append(unknown, at)
@@ -1178,25 +1429,40 @@ func c17Acceptance(c *kit.Ctx, r *kit.Rule, dec *c17Decoder, dm *c17DecModel, em
 		}
 		return
 	}
-	if accLog {
+	const notFound = "the test is not found in a form the table interprets (a predicate with more than one return, a stored result, …)"
+	switch {
+	case accLog:
 		oLog.OK("an accepting exit exists under subject == \"log\"")
-	} else {
+	case !sawLog || anyQ:
+		oLog.Undecided("no accepting exit under subject == \"log\" was found, but %s", notFound)
+	default:
 		oLog.Violation("no exit returns the payload under subject == \"log\": log packets (which carry no usable checksum by design) are never delivered")
 	}
-	if accCrc {
+	switch {
+	case accCrc:
 		oCrc.OK("an accepting exit exists under subject != \"log\" and stored == computed")
-	} else {
+	case !sawCrc || anyQ:
+		oCrc.Undecided("no accepting exit under a matching checksum was found, but %s", notFound)
+	default:
 		oCrc.Violation("no exit returns the payload when the stored checksum equals the computed one: every valid packet is rejected")
 	}
-	if len(badRej) == 0 {
-		oRej.OK("every accepting exit has subject == \"log\" or stored == computed on its path")
-	} else {
+	switch {
+	case len(badRej) > 0 && sawLog && sawCrc:
 		oRej.Violation("%s", badRej[0])
+	case len(badRej) > 0:
+		oRej.Undecided("%s — but %s", badRej[0], notFound)
+	case len(qRej) > 0:
+		oRej.Undecided("%s — on a path through a condition on the packet content that the table does not interpret", qRej[0])
+	default:
+		oRej.OK("every accepting exit has subject == \"log\" or stored == computed on its path")
 	}
-	if len(badVal) == 0 {
-		oVal.OK("every rejecting exit lies before the tests or on the mismatch edge")
-	} else {
+	switch {
+	case len(badVal) > 0:
 		oVal.Violation("%s", badVal[0])
+	case len(qVal) > 0:
+		oVal.Undecided("%s — on a path through a condition on the packet content that the table does not interpret", qVal[0])
+	default:
+		oVal.OK("every rejecting exit lies before the tests or on the mismatch edge")
 	}
 }
 
@@ -1364,4 +1630,135 @@ func c17Storage(c *kit.Ctx, r *kit.Rule, enc *c17Encoder, em *c17EncModel) {
 	default:
 		o.Undecided("%s returns the bytes of a buffer of %s origin", alias[0], em.origin)
 	}
+}
+
+// c17SubjectGuard decides that at the copy of the subject into its field
+// len(subject) <= field size on every path (in the encoder, or in the helper
+// that builds the field).
+func c17SubjectGuard(encoder *kit.Func, em *c17EncModel) {
+	if em.subjParam == nil {
+		return
+	}
+	f := encoder
+	if em.guardFn != nil {
+		f = em.guardFn
+	}
+	info := f.Info()
+	mentions := func(e ast.Expr, o types.Object) bool {
+		hit := false
+		ast.Inspect(e, func(x ast.Node) bool {
+			if id, ok := x.(*ast.Ident); ok && kit.ObjOf(info, id) == o {
+				hit = true
+			}
+			return !hit
+		})
+		return hit
+	}
+	lf := &kit.LenFlow{F: f, X: em.subjParam}
+	em.guardOK, em.guardMsg = true, ""
+	seen := false
+	lf.Visit = func(n ast.Node, s kit.S) {
+		for _, cp := range kit.CallsIn(n) {
+			if b, ok := kit.Callee(info, cp).(*types.Builtin); !ok || b.Name() != "copy" || len(cp.Args) != 2 || !mentions(cp.Args[1], em.subjParam) {
+				continue
+			}
+			seen = true
+			_, max, ok := lf.LenRange(s)
+			switch {
+			case !ok:
+				em.guardOK, em.guardMsg = false, "undecided: length of the subject unknown at the copy"
+			case max < 0 || max > em.subjField:
+				em.guardOK = false
+				em.guardMsg = fmt.Sprintf("a subject of %d bytes reaches `%s` in %s and is silently truncated to %d bytes (no dominating length refusal)", em.subjField+1, f.Str(cp), f.Name, em.subjField)
+				if s.Get("u") != "" {
+					em.guardMsg = "undecided: " + em.guardMsg
+				}
+			}
+		}
+	}
+	lf.Run()
+	if lf.Problem != "" {
+		em.guardOK, em.guardMsg = false, "undecided: "+lf.Problem
+	} else if !seen {
+		em.guardOK, em.guardMsg = false, "undecided: the subject copy was not reached by the path engine"
+	}
+}
+
+// c17SubjectFieldHelper: call is g(subject) for a module function g with one
+// string parameter whose successful result is a local made with a constant
+// length into which the parameter is copied.
+func c17SubjectFieldHelper(f *kit.Func, call *ast.CallExpr, strParams []types.Object) (n int64, g *kit.Func, gp types.Object, ok bool) {
+	info := f.Info()
+	g = f.CalleeFunc(call)
+	if g == nil || g.Body == nil || g.Decl == nil || len(call.Args) != 1 || len(g.Params()) != 1 {
+		return 0, nil, nil, false
+	}
+	isSubj := false
+	for _, sp := range strParams {
+		if kit.ObjOf(info, call.Args[0]) == sp {
+			isSubj = true
+		}
+	}
+	gp = g.Params()[0]
+	if b, isB := gp.Type().Underlying().(*types.Basic); !isSubj || !isB || b.Kind() != types.String {
+		return 0, nil, nil, false
+	}
+	ginfo := g.Info()
+	var field types.Object
+	bad := false
+	ast.Inspect(g.Body, func(x ast.Node) bool {
+		switch y := x.(type) {
+		case *ast.FuncLit:
+			return false
+		case *ast.ReturnStmt:
+			if len(y.Results) == 0 {
+				bad = true
+				return true
+			}
+			r0 := ast.Unparen(y.Results[0])
+			if kit.IsNilIdent(ginfo, r0) {
+				return true
+			}
+			if cl, isLit := r0.(*ast.CompositeLit); isLit && len(cl.Elts) == 0 {
+				return true
+			}
+			o := kit.ObjOf(ginfo, r0)
+			if o == nil || (field != nil && field != o) {
+				bad = true
+				return true
+			}
+			field = o
+		}
+		return true
+	})
+	if bad || field == nil {
+		return 0, nil, nil, false
+	}
+	def := c12SingleDef(g, field)
+	dc, isCall := ast.Unparen(def).(*ast.CallExpr)
+	if def == nil || !isCall || len(dc.Args) != 2 {
+		return 0, nil, nil, false
+	}
+	if b, isB := kit.Callee(ginfo, dc).(*types.Builtin); !isB || b.Name() != "make" {
+		return 0, nil, nil, false
+	}
+	n, okN := kit.ConstInt(ginfo, dc.Args[1])
+	if !okN {
+		return 0, nil, nil, false
+	}
+	copied := false
+	for _, cp := range g.AllCalls(false) {
+		if b, isB := kit.Callee(ginfo, cp).(*types.Builtin); isB && b.Name() == "copy" && len(cp.Args) == 2 && kit.ObjOf(ginfo, cp.Args[0]) == field {
+			ast.Inspect(cp.Args[1], func(x ast.Node) bool {
+				if id, isId := x.(*ast.Ident); isId && kit.ObjOf(ginfo, id) == gp {
+					copied = true
+				}
+				return true
+			})
+		}
+	}
+	if !copied {
+		return 0, nil, nil, false
+	}
+	return n, g, gp, true
 }
